@@ -507,8 +507,14 @@ def rule_s8(ctx, F):
     fn = ctx.need_fn(F, "ts_node_child_by_field_id", "S8")
     if not fn:
         return
+    # the range is what ts_language_field_map hands out through its two out-parameters (names are whatever they are today)
+    fmc = [c for pt, c in fn.calls() if callee_name(c) == "ts_language_field_map" and len(c.get("a", [])) >= 4]
+    if fmc:
+        bind_names(fn, {"field_map": arg_var(fmc[0], 2), "field_map_end": arg_var(fmc[0], 3)})
+    if len(fn.params) >= 2:
+        bind_names(fn, {"field_id": fn.params[1]["name"]})
     fm = fn.ids_named("field_map")
-    fid = [p["id"] for p in fn.params if p["name"] == "field_id"] or fn.ids_named("field_id")
+    fid = fn.ids_named("field_id")
     if not fm or not fid:
         ctx.bad("S8", "ts_node_child_by_field_id:entry-reads", "ts_node_child_by_field_id no longer has `field_map` / `field_id`")
         return
